@@ -95,7 +95,7 @@ def cmd_sigma(name):
         sig.append('"zz"')
     foreign = ":foreign" if ":foreign" not in tags else ":other"
     sig.append(foreign)
-    sig += ["STR", "LIST1", "LIST2", "NUM", "10K", "ML", "true"]
+    sig += ["STR", "LIST1", "LIST2", "LISTDUP", "NUM", "10K", "ML", "true"]
     return sig
 
 
